@@ -524,9 +524,19 @@ func cmdShrink(args []string) {
 		strings.Contains(rec.Signature, "/no-return/") || strings.Contains(rec.Signature, "/goroutine-panic/")
 	tries := 0
 	tmp := *out + ".cand"
+	// minimisation is a service, not part of the verdict: after this much wall-clock time every further candidate counts as
+	// "does not fail" and the best file so far is kept (one candidate of a 4097-goroutine run takes seconds)
+	shrinkStart := time.Now()
+	shrinkLimit := 240 * time.Second
+	if v, err := strconv.Atoi(os.Getenv("VERIF_SHRINK_S")); err == nil && v > 0 {
+		shrinkLimit = time.Duration(v) * time.Second
+	}
 	// test reports whether draws still produce the recorded signature.
 	test := func(draws []int) bool {
 		tries++
+		if tries > 1 && time.Since(shrinkStart) > shrinkLimit {
+			return false
+		}
 		if isRace {
 			// ThreadSanitizer reports a given stack pair once per process: candidates need fresh processes.
 			c := rec
